@@ -197,11 +197,15 @@ def prepare (m : Mdl) (t : Tree) : Op → Option (Tree × Nat × Nat)
       else some (Tree.fresh parts nA (H + m.overrun), H, iters)
     else none
 
-/-- one public call: prepare the root, run the simulations on the logged steps -/
+/-- one public call: prepare the root, run the simulations on the logged steps
+    (`runSimulation`: `if ( !horizon ) return 0;` before anything is simulated) -/
 def call (m : Mdl) (t : Tree) (op : Op) (log : List Step) : Option (Tree × List Step) :=
   match prepare m t op with
   | none => none
-  | some (t0, H, iters) => runSims m H iters t0 log
+  | some (t0, H, iters) => if H = 0 then some (t0, log) else runSims m H iters t0 log
+
+/-- the default-constructed `graph_` of a planner on which no call has been made yet -/
+def Tree.init : Tree := Tree.fresh [] 0 0
 
 /-- achievable discounted returns over at least one and at most `n` steps (a trajectory may stop early
     at a terminal state), rewards in `[rmin, rmax]`: upper and lower end -/
